@@ -1032,7 +1032,20 @@ def _capture(exc, tb, step, d, mods):
         if buf2.getvalue() != obs["print"] or not hook_ok or tbutils.ParsedTB is not tbutils.ParsedException:
             raise RuntimeError("print_exception default file / fix_print_exception / ParsedTB alias inconsistent")
         obs["parsed"] = _parse_obs(obs["fmt"])[0]
-        obs["ctx"] = tbutils.ContextualExceptionInfo.from_exc_info(et, exc, tb).get_formatted()
+        cei = tbutils.ContextualExceptionInfo.from_exc_info(et, exc, tb)
+        obs["ctx"] = cei.get_formatted()
+        # its to_dict(): the plain fields must be ExceptionInfo's; the additions (locals, context lines) are
+        # outside the property and only required to be well-formed and serialisable
+        cd = cei.to_dict()
+        base = ("func_name", "lineno", "module_name", "module_path", "lasti", "line")
+        if (cd["exc_type"], cd["exc_msg"]) != (dd["exc_type"], dd["exc_msg"]) or \
+                [{k: f[k] for k in base} for f in cd["exc_tb"]["frames"]] != [{k: f[k] for k in base} for f in dd["exc_tb"]["frames"]]:
+            raise RuntimeError("ContextualExceptionInfo.to_dict() differs from ExceptionInfo.to_dict() in the plain fields")
+        json.dumps(cd)
+        for f in cd["exc_tb"]["frames"]:
+            if not isinstance(f["locals"], dict) or any(not isinstance(v, str) for v in f["locals"].values()) \
+                    or any(set(x) != {"lineno", "line"} for x in f["pre_lines"] + f["post_lines"]):
+                raise RuntimeError("ContextualCallpoint.to_dict(): malformed locals/context lines")
     # ---- the interpreter's view, now ---------------------------------------------------------
     summ = traceback.extract_tb(tb)
     live = [{"file": fs.filename, "lineno": fs.lineno, "name": fs.name, "raw": fs._original_line} for fs in summ]
